@@ -891,7 +891,21 @@ func (f *fileCtx) process() {
 				ok = st != nil && inList(st, stPar)
 			}
 			if !ok {
-				fail(fset, x.Pos(), "receive expression in unsupported statement context")
+				// a receive buried in an expression (if/for/switch header, return value, call argument): wrap the
+				// receive itself. Only the single-value form can occur here (v, ok := <-ch is an assignment).
+				tv, have := info.Types[x]
+				if !have || tv.Type == nil {
+					fail(fset, x.Pos(), "receive expression in unsupported statement context (no type)")
+					break
+				}
+				if _, isTuple := tv.Type.(*types.Tuple); isTuple {
+					fail(fset, x.Pos(), "comma-ok receive in unsupported statement context")
+					break
+				}
+				ts := f.typeString(tv.Type, x.Pos())
+				f.ins(x.Pos(), fmt.Sprintf("func() %s { simrt.Pre(%q); verifV := ", ts, f.site(x.Pos())))
+				f.ins(x.End(), "; simrt.Post(); return verifV }()")
+				stats["recv_in_expr"]++
 				break
 			}
 			f.ins(st.Pos(), fmt.Sprintf("simrt.Pre(%q); ", f.site(x.Pos())))
